@@ -7,6 +7,7 @@ from . import common
 ID = "C18"
 LEVEL = "fault_enumeration"
 EVENT_BUDGET = 20000
+MAX_SLEEP_S = 60.0
 RULE = ("seeded runs; a run = product x back-end x records_per_chunk x a list of single storage "
         "faults applied one at a time to a pristine copy: missing(summary|VOL|LED|IMG_k|TRL) and "
         "trunc(VOL|LED|IMG_k, k) with k in {0,1,719,720,721,size-1, first pixel byte of the last "
@@ -26,7 +27,8 @@ ASSUMPTIONS = [
     "is legitimately invisible); any Exception is accepted for truncation, an OSError for a "
     "missing file",
     "'terminates promptly' = the damaged open (and the loads that judge a returned tree) finish "
-    "within %d + 10 x the simulator events the undamaged open + full load needed" % EVENT_BUDGET,
+    "within %d + 10 x the simulator events the undamaged open + full load needed, and sleeps "
+    "(virtual time) of at most %d s in total" % (EVENT_BUDGET, MAX_SLEEP_S),
 ]
 
 
@@ -166,6 +168,7 @@ def execute(plan):
                 SIM.fault(fault["kind"])
             site = f"{kind}:{cc}"
             start = SIM.mark()
+            clock0 = SIM.clock
             SIM.max_events = start + budget
             tree = err = None
             try:
@@ -182,10 +185,16 @@ def execute(plan):
                 if fault["kind"] == "eio":
                     bump("eio-fired" if SIM.read_fault.get("fired") else "eio-not-reached")
                 SIM.read_fault = None
+            slept = SIM.clock - clock0
             if err == "budget":
                 violations.append(Violation(ID, "no-prompt-termination", site, {
                     "fault": fault, "events": budget, "rpc": r}))
                 outcome = "budget"
+            elif slept > MAX_SLEEP_S:
+                # sleeps pass virtual time: a call that waits this long in total is not prompt
+                violations.append(Violation(ID, "no-prompt-termination", site + ":slept", {
+                    "fault": fault, "virtual_seconds_slept": round(slept, 3), "rpc": r}))
+                outcome = "slept"
             elif err is not None:
                 outcome = "raised"
                 if fault["kind"] == "missing" and isinstance(err, Exception) \
